@@ -131,6 +131,19 @@ Lemma st_callpc : forall pc p sc' st fk vs l o g, at_ pc Icallpc ->
   step nt code (N pc (SPc p sc' :: st) fk vs l o g) = Next (N p st fk vs l o {| ctr := ctr g; creg := (pc, sc') |}).
 Proof. intros. stp H. Qed.
 
+Definition grow (vs : list sv) (off : nat) : list sv :=
+  if length vs <? off then vs ++ repeat (SV VNull) (2 * off - length vs) else vs.
+Definition outer_of (sc : list frame) (id : nat) (idx : list frame) : list frame :=
+  match idx with
+  | Frame i _ _ _ _ out :: _ => if Nat.eqb i id then out else idx
+  | [] => []
+  end.
+Lemma st_scope : forall pc id nv na st fk vs l o g, at_ pc (Iscope id nv na) ->
+  step nt code (N pc st fk vs l o g) =
+  Next (VM.Run (S pc) false None (mk (Frame id o (fst (creg g)) (ctr g) sc (outer_of sc id (snd (creg g))) :: sc) st fk
+                                     (grow vs (o + nv)) l (o + nv) {| ctr := S (ctr g); creg := creg g |})).
+Proof. intros. stp H. destruct (creg g) as [cpc idx]. reflexivity. Qed.
+
 (* popfork *)
 Lemma st_popfork : forall e pc st o t fk vs l g,
   step nt code (B e (F pc st o t :: fk) vs l g) = Next (Run pc true e (mk sc st fk vs l o g)).
